@@ -387,9 +387,11 @@ func EvalOne(ctx context.Context, s *eval.State, what string, out io.Writer, opt
 	formatted string,
 ) {
 	if !options.PanicOk {
+		savedOut := s.Out // function calls swap the output writer while they run.
 		defer func() {
 			if r := recover(); r != nil {
 				panicked = true
+				s.Out = savedOut // the panic unwound through the calls that would have restored it.
 				log.Critf("Caught panic: %v", r)
 				if log.LogDebug() {
 					log.Debugf("Dumping stack trace")
